@@ -155,6 +155,19 @@ def step (toks : List String) : String :=
           let tl := e.length == (totalLen c cfg).toNat + (if c.signKind == .rsa then cfg.sigLen else 0)
             + (if c.family == some .encrypted then 72 else 0)
           s!"cwf={b (ClassWF c)} wf={b (cfgWF c cfg)} rt={b rt} re={b re} hdr={b hdr} tl={b tl}"
+      else if op == "tzcfg" then
+        -- configuration path: what `load_from_config` makes of the TrustZone keys (en = a|t|f, pf = a|e|f:<hex>)
+        let en : Option Bool := match kv.get? "en" with | some "t" => some true | some "f" => some false | _ => none
+        let pfs := (kv.get? "pf").getD "a"
+        let pf : Option (Option Bytes) := if pfs == "a" then none else if pfs == "e" then some none
+          else some (some ((parseHex ((pfs.drop 2).replace "-" "")).getD []))
+        let k : TzKeys := { enable := en, preset := pf }
+        let opt := c.tzLoader == some .Mbi_MixinTrustZone
+        let r := match tzOfConfig c k with
+          | .error e => "E:" ++ e.tag
+          | .ok none => "none"
+          | .ok (some t) => tzStr t
+        s!"{r};loader={repr c.tzLoader};req={tzRequestedTag opt k}"
       else if op == "reexport" then
         match parseImage execOps (envOf kv) c (kv.optHex "dek") (kv.hex "data") with
         | .error e => "parse:" ++ e.tag
